@@ -118,6 +118,8 @@ type Run struct {
 	timerTab   map[*value]*timerState
 	quiesceRan bool
 	noteAssume int
+	sizeClassUsed int
+	crcApps    []crcApp
 }
 
 type obsRec struct {
@@ -284,6 +286,16 @@ func (r *Run) concreteSize(t *Term, what string) int {
 	if !r.decide(r.st.BvCmp(OBvSle, BV(64, 0), t)) {
 		panic(rtPanic("makeslice: len out of range"))
 	}
+	if cls, ok := r.cfg.Params["allocClassAbove"]; ok {
+		// size classes: every size above cls behaves alike for the harness (the only consumer is
+		// a ReadFull that must fail because the file is shorter): one representative of cls+1 cells
+		// stands for the class while the path condition keeps the real constraint size > cls.
+		if !r.decide(r.st.BvCmp(OBvSle, t, BV(64, uint64(cls)))) {
+			r.sizeClassUsed++
+			return cls + 1
+		}
+		return int(r.concretize(t, 0, what))
+	}
 	if !r.decide(r.st.BvCmp(OBvSle, t, BV(64, uint64(r.cfg.MaxAlloc)))) {
 		// larger than anything the interpreter materialises
 		r.allocTooLarge(nil, r.cfg.MaxAlloc+1, nil)
@@ -396,7 +408,7 @@ func (r *Run) violation(kind, label, msg string, extra []*Term, fr *frame) {
 		if r.fs != nil {
 			v.Files = r.fs.dump(r, func(t *Term) (uint64, bool) { x, ok := m[t]; return x, ok })
 			if len(r.fs.crashNote) > 0 {
-				v.Extra = map[string]any{"crash": r.fs.crashNote}
+				v.Extra = map[string]any{"crash": r.fs.crashNote, "crashPlan": r.fs.crashPlan}
 			}
 		}
 		r.viols = append(r.viols, v)
